@@ -310,7 +310,22 @@ var (
 	oidSM2Curve       = asn1.ObjectIdentifier{1, 2, 156, 10197, 1, 301} // also used as the SM2 public-key algorithm OID
 	oidP256           = asn1.ObjectIdentifier{1, 2, 840, 10045, 3, 1, 7}
 	oidP384           = asn1.ObjectIdentifier{1, 3, 132, 0, 34}
+	oidP224           = asn1.ObjectIdentifier{1, 3, 132, 0, 33}
+	oidP521           = asn1.ObjectIdentifier{1, 3, 132, 0, 35}
 )
+
+// nistOID returns the RFC 5480 named-curve OID and the SEC1 scalar width of a NIST curve.
+func nistOID(c elliptic.Curve) (asn1.ObjectIdentifier, int) {
+	switch c {
+	case elliptic.P224():
+		return oidP224, 28
+	case elliptic.P384():
+		return oidP384, 48
+	case elliptic.P521():
+		return oidP521, 66
+	}
+	return oidP256, 32
+}
 
 type pkixPublicKey struct {
 	Algo      pkix.AlgorithmIdentifier
@@ -449,10 +464,7 @@ func plainRSA(r rt) {
 func plainECDSA(r rt) {
 	p := r.k.priv.(*ecdsa.PrivateKey)
 	{
-		oid, size := oidP256, 32
-		if p.Curve == elliptic.P384() {
-			oid, size = oidP384, 48
-		}
+		oid, size := nistOID(p.Curve)
 		pub := elliptic.Marshal(p.Curve, p.X, p.Y)
 		if d, err := smx509.MarshalECPrivateKey(p); err == nil {
 			r.sec1Shape("sec1", d, size, p.D, oid, pub, true)
